@@ -140,3 +140,65 @@ Proof.
       * change (map strip_b tl) with (strip_b r2 :: map strip_b rest') in I2.
         rewrite (concat_strip r _ Hr), (concat_strip d _ Hd), I2. reflexivity.
 Qed.
+
+(* ---------- JoinTo over slices whose elements are RedactableString or RedactableBytes, mixed ---------- *)
+Definition redv (v : value) : option bytes :=
+  match v with VRS r | VRB r => Some r | _ => None end.
+Definition redv_ok (v : value) : Prop := exists r, redv v = Some r /\ last_invalid r = false.
+Definition payload (v : value) : bytes := match redv v with Some r => r | None => [] end.
+
+Lemma builder_step_print_red k env l x v : redv_ok v -> rawbuf (lb l) x ->
+  exists l', builder_step (S (S k)) env l (APrint [v]) = ROk l' /\ rawbuf (lb l') (x ++ payload v).
+Proof.
+  intros (r & Hv & Hr) Hx. unfold payload. rewrite Hv.
+  destruct v; try discriminate; injection Hv as ->.
+  - now apply builder_step_print_rs.
+  - destruct (sprint_rb_log k env r) as (o' & E & L).
+    assert (o_bytes o' = r) as Hb by (apply (sprint_redactable_identity k env r o' Hr); now right).
+    unfold builder_step. rewrite E. cbn [res_bind]. eexists. split; [reflexivity|].
+    cbn [l_step fst lb step]. rewrite Hb. now apply rawbuf_write.
+Qed.
+
+Lemma builder_run_app k env a : forall b l0, builder_run (S (S k)) env l0 (a ++ b) =
+  res_bind (builder_run (S (S k)) env l0 a) (fun l' => builder_run (S (S k)) env l' b).
+Proof.
+  induction a as [|a0 a IHa]; intros b l0; cbn [app builder_run res_bind]; [reflexivity|].
+  destruct (builder_step (S (S k)) env l0 a0); cbn [res_bind]; [apply IHa | reflexivity ..].
+Qed.
+
+Lemma builder_run_joinv k env d : last_invalid d = false -> forall vs l x first,
+  Forall redv_ok vs -> rawbuf (lb l) x ->
+  exists l', builder_run (S (S k)) env l (join_acts d first vs) = ROk l' /\
+    rawbuf (lb l') (x ++ (match vs with [] => [] | _ => if first then [] else d end) ++ intercalate d (map payload vs)).
+Proof.
+  intros Hd vs. induction vs as [|v rest IH]; intros l x first Hall Hx.
+  - exists l. split; [reflexivity|]. cbn. now rewrite app_nil_r.
+  - inversion Hall as [|? ? Hv Hrest]; subst.
+    assert (exists l1, builder_run (S (S k)) env l (if first then [] else [APrint [VRS d]]) = ROk l1 /\
+                       rawbuf (lb l1) (x ++ (if first then [] else d))) as (l1 & E1 & H1).
+    { destruct first.
+      - exists l. split; [reflexivity | now rewrite app_nil_r].
+      - destruct (builder_step_print_rs k env l x d Hd Hx) as (l1 & E & H).
+        exists l1. split; [|exact H]. cbn [builder_run]. rewrite E. reflexivity. }
+    destruct (builder_step_print_red k env l1 _ v Hv H1) as (l2 & E2 & H2).
+    destruct (IH l2 _ false Hrest H2) as (l3 & E3 & H3).
+    exists l3. split.
+    + cbn [join_acts]. rewrite builder_run_app, E1. cbn [res_bind builder_run]. rewrite E2. cbn [res_bind]. exact E3.
+    + match goal with H : rawbuf _ ?a |- rawbuf _ ?b => replace b with a; [exact H|] end.
+      destruct rest as [|r2 rest'].
+      * cbn [intercalate app map]. now rewrite <- !app_assoc, !app_nil_r.
+      * cbn [intercalate app map]. now rewrite <- !app_assoc.
+Qed.
+
+(* JoinTo(&builder, delim, []T) for T = RedactableString, RedactableBytes or interface{} holding
+   either: the concatenation of the elements with the delimiter *)
+Theorem jointo_is_concatenation k env d tn tl es o : last_invalid d = false ->
+  let vs := map (fun e => match e with VIface _ (Some x) => x | VIface _ None => VNil | x => x end) es in
+  Forall redv_ok vs ->
+  builder (S (S k)) env (jointo_acts d (VSlice tn tl es)) = ROk o -> o_bytes o = intercalate d (map payload vs).
+Proof.
+  intros Hd vs Hall H. unfold builder, jointo_acts in H. fold vs in H.
+  destruct (builder_run_joinv k env d Hd vs l_init [] true Hall rawbuf_init) as (l' & E & Hx).
+  rewrite E in H. cbn [res_bind] in H. injection H as <-. cbn [o_bytes].
+  rewrite (rawbuf_output _ _ Hx). destruct vs; reflexivity.
+Qed.
